@@ -184,3 +184,148 @@ Theorem C24_fetcher_each_key_once : forall c tr s, steps c (Fetcher.init c) tr s
   forall k, k ∈ reads s -> exists i t ks, LFetch i t ks ∈ tr /\ k ∈ ks.
 Proof. exact reads_once. Qed.
 Print Assumptions C24_fetcher_each_key_once.
+
+(* When Get returns a map it is exactly the parent's entries of the keys the transaction listed (absent
+   keys are absent from the map), and none of those keys is the failing one.  Hypothesis: transaction
+   ids are distinct ([dupid] = false: no Fetch call re-used an id), see C24_fetcher_distinct_ids_needed. *)
+Theorem C24_fetcher_get_values : forall c tr s, steps c (Fetcher.init c) tr s -> dupid s = false ->
+  forall g t m, (g, t, GMap m) ∈ get_results s ->
+  exists i ks, LFetch i t ks ∈ tr /\ m = get_map (c_parent c) ks /\
+               forall k, k ∈ ks -> Fetcher.is_fail c k = false.
+Proof. exact get_values. Qed.
+Print Assumptions C24_fetcher_get_values.
+
+(* ... and [get_map] is the sequential [Chain.fetch] of the theorems above: the map handed to a task's
+   view by the concurrent fetcher is the one C24_fetch_exactly_declared / C24_tx_sees_parent_value use. *)
+Theorem C24_fetcher_get_map_is_fetch : forall (parent : gmap key val) (ks : list key) (sk : gmap key perm),
+  (forall k, k ∈ ks <-> is_Some (sk !! k)) -> get_map parent ks = fetch parent sk.
+Proof.
+  intros parent ks sk H. apply map_eq. intros k. rewrite get_map_lookup, fetch_lookup.
+  destruct (decide (k ∈ ks)) as [Hi|Hni], (decide (is_Some (sk !! k))) as [Hs|Hns]; try reflexivity.
+  - exfalso. apply Hns, H, Hi.
+  - exfalso. apply Hni, H, Hs.
+Qed.
+Print Assumptions C24_fetcher_get_map_is_fetch.
+
+(* Blockers accounting and absence of Go panics (ids distinct): [broken] (double close / close of a nil
+   waiter / nil dereference in set / send on the closed task channel) is unreachable; a transaction's
+   blockers counter equals the number of occurrences of still uncached keys in its list; its waiter is an
+   open channel exactly while the counter is positive, so it is closed exactly when the counter reaches 0
+   (and a transaction whose keys were all cached at Fetch time has no waiter). *)
+Theorem C24_fetcher_no_double_close : forall c tr s, steps c (Fetcher.init c) tr s -> dupid s = false ->
+  broken s = false /\
+  forall t r, txs s t = Some r ->
+    blockers r = Z.of_nat (cntb (pendK (keys s)) (tkeys r)) /\
+    (waiter r = WOpen <-> (0 < blockers r)%Z) /\
+    (waiter r = WClosed -> blockers r = 0%Z).
+Proof. exact accounting. Qed.
+Print Assumptions C24_fetcher_no_double_close.
+
+(* No lost wake-up, local form (PARTIAL).  A Get call waiting for transaction t can take its next step
+   as soon as every key of t is cached, or the fetcher was stopped.
+   Full intended statement (not proved): in every reachable state without error, with >= 1 worker and
+   capacity >= 1, either some label of the fetcher's own threads / blocked callers is enabled or every
+   submitted Fetch and Get call has returned.  Missing: the global liveness invariant "an uncached key
+   with an entry has a task token in some Fetch call's unsent list, in the channel or in a worker, or
+   the error path is active" (InvA of Proofs/Fetcher_proofs.v already provides the error/once/exit
+   clauses it needs).  The driver samples this (no call may hang). *)
+Theorem C24_fetcher_no_lost_wakeup_partial : forall c tr s g t r,
+  steps c (Fetcher.init c) tr s -> dupid s = false ->
+  gph s g = GWait t -> txs s t = Some r ->
+  (forall k, k ∈ tkeys r -> cachedK (keys s) k = true) \/ stop s = true ->
+  exists b s', Fetcher.step c s (LGetWake g b) = Some s'.
+Proof. exact wake_enabled. Qed.
+Print Assumptions C24_fetcher_no_lost_wakeup_partial.
+
+(* Errors are never absence.  For every reachable state: a Get that returns an error returns the
+   fetcher's non-nil error; a failing read that happened is never lost (the error is set or the worker
+   holding it is about to set it); every error handed out by Fetch / Wait is the final one.  (That a
+   transaction listing the failing key never receives a map is part of C24_fetcher_get_values.) *)
+Theorem C24_fetcher_error_not_absence : forall c tr s, steps c (Fetcher.init c) tr s ->
+  (forall g t e, (g, t, GErr e) ∈ get_results s -> e = err s /\ e <> None) /\
+  (forall k, Fetcher.is_fail c k = true -> k ∈ reads s ->
+     err s <> None \/ exists w, ws s !! w = Some (WFail k)) /\
+  (forall i e, EvFetchRet i (Some e) ∈ Fetcher.log s -> err s = Some e) /\
+  (forall e, EvWaitRet e ∈ Fetcher.log s -> e = err s).
+Proof. exact error_not_absence. Qed.
+Print Assumptions C24_fetcher_error_not_absence.
+
+(* The error is sticky, and once it is set Fetch refuses new transactions: the call registers nothing
+   and returns the error. *)
+Theorem C24_fetcher_refuses_after_error : forall c tr s l s' e,
+  steps c (Fetcher.init c) tr s -> Fetcher.step c s l = Some s' -> err s = Some e ->
+  err s' = Some e /\
+  forall i t ks, l = LFetch i t ks ->
+    keys s' = keys s /\ txs s' = txs s /\ unsent s' = unsent s /\ fph s' i = FRet (Some e).
+Proof.
+  intros c tr s l s' e Hs Hst He. split.
+  - eapply err_sticky; [apply (reach_AB _ _ _ Hs)|exact Hst|exact He].
+  - intros i t ks ->. eapply fetch_refused; eassumption.
+Qed.
+Print Assumptions C24_fetcher_refuses_after_error.
+
+(* ---- non-vacuity: concrete traces ------------------------------------------------------------- *)
+Definition fA : key := [1;0].  Definition fB : key := [2;0].  Definition fC : key := [3;0].
+Definition fpar : gmap key val := list_to_map [(fA, [9]); (fC, [])].     (* fB is absent, fC is empty *)
+Definition show (r : gres) : option (list (key * val)) + option ecode :=
+  match r with GMap m => inl (Some (map_to_list m)) | GErr e => inr e | GMissing => inl None end.
+Definition outcome (s : state) :=
+  (reads s, map (fun x => (fst x, show (snd x))) (get_results s), err s, broken s, dupid s).
+
+(* two transactions sharing fB on two workers: fB is pending when the second Fetch runs; each key is
+   read once; both Gets return the parent's entries (fB absent from both maps, fC present and empty) *)
+Example C24_fetcher_ex_overlap :
+  match run_labels (mkC fpar None 2 4) (Fetcher.init (mkC fpar None 2 4))
+    [LFetch 0 10 [fA; fB]; LFetch 1 11 [fB; fC]; LSend 0; LSend 0; LFetchRet 0; LSend 1; LFetchRet 1;
+     LTake 0; LTake 1; LGetBegin 0 10; LGetBegin 1 11; LRead 1; LRead 0; LSet 1; LSet 0;
+     LGetWake 0 false; LGetRead 0; LTake 0; LRead 0; LSet 0; LGetWake 1 false; LGetRead 1;
+     LWaitClose; LExit 0; LExit 1; LWaitRet] with
+  | Some s => outcome s = ([fB; fA; fC],
+                           [(0%nat, 10, inl (Some [(fA, [9])])); (1%nat, 11, inl (Some [(fC, [])]))],
+                           None, false, false)
+  | None => False
+  end.
+Proof. vm_compute. reflexivity. Qed.
+
+(* the same calls with a failing read of fB: both Gets return the read error, a later Fetch is refused,
+   Wait returns the error; fB is not treated as absent *)
+Example C24_fetcher_ex_error :
+  match run_labels (mkC fpar (Some fB) 2 4) (Fetcher.init (mkC fpar (Some fB) 2 4))
+    [LFetch 0 10 [fA; fB]; LFetch 1 11 [fB; fC]; LSend 0; LSend 0; LFetchRet 0; LSend 1; LFetchRet 1;
+     LGetBegin 0 10; LGetBegin 1 11; LTake 0; LTake 1; LRead 1; LErrSet 1; LRead 0; LSet 0; LErrClose;
+     LGetWake 0 true; LGetWake 1 true; LExit 0; LFetch 2 12 [fC]; LWaitClose; LWaitRet] with
+  | Some s => outcome s = ([fB; fA], [(0%nat, 10, inr (Some ERead)); (1%nat, 11, inr (Some ERead))],
+                           Some ERead, false, false)
+              /\ fph s 2 = FRet (Some ERead) /\ txs s 12 = None
+              /\ EvWaitRet (Some ERead) ∈ Fetcher.log s
+  | None => False
+  end.
+Proof. vm_compute. split; [reflexivity|]. split; [reflexivity|]. split; [reflexivity|]. constructor. Qed.
+
+(* C24_fetcher_no_lost_wakeup_partial: its hypotheses hold in the state before the first LGetWake above *)
+Example C24_fetcher_ex_wake :
+  match run_labels (mkC fpar None 2 4) (Fetcher.init (mkC fpar None 2 4))
+    [LFetch 0 10 [fA; fB]; LFetch 1 11 [fB; fC]; LSend 0; LSend 0; LFetchRet 0; LSend 1; LFetchRet 1;
+     LTake 0; LTake 1; LGetBegin 0 10; LGetBegin 1 11; LRead 1; LRead 0; LSet 1; LSet 0] with
+  | Some s => gph s 0 = GWait 10 /\ dupid s = false /\
+              match txs s 10 with
+              | Some r => forallb (cachedK (keys s)) (tkeys r) = true /\ waiter r = WClosed /\ blockers r = 0%Z
+              | None => False
+              end /\
+              match txs s 11 with Some r => waiter r = WOpen /\ blockers r = 1%Z | None => False end
+  | None => False
+  end.
+Proof. vm_compute. auto 10. Qed.
+
+(* Distinct ids are needed: two Fetch calls for the same id (f.txs[txID] is overwritten).  The second
+   record has 2 blockers; the first key's blocked list names the id twice, so caching fA alone closes the
+   waiter and Get returns a map WITHOUT fC although the parent has it and it was never read. *)
+Example C24_fetcher_distinct_ids_needed :
+  match run_labels (mkC fpar None 1 4) (Fetcher.init (mkC fpar None 1 4))
+    [LFetch 0 7 [fA]; LFetch 1 7 [fA; fC]; LSend 0; LFetchRet 0; LSend 1; LFetchRet 1;
+     LTake 0; LRead 0; LSet 0; LGetBegin 0 7; LGetWake 0 false; LGetRead 0] with
+  | Some s => outcome s = ([fA], [(0%nat, 7, inl (Some [(fA, [9])]))], None, false, true)
+              /\ fpar !! fC = Some []
+  | None => False
+  end.
+Proof. vm_compute. split; reflexivity. Qed.
